@@ -377,10 +377,15 @@ def gen_seq(rng, n):
     return "".join(alpha[int(i)] for i in rng.integers(0, len(alpha), size=n))
 
 
-def gen_mseq(rng, nlo, nhi, **kw):
+def gen_mseq(rng, nlo, nhi, overhang=False, **kw):
     n = int(rng.integers(nlo, nhi + 1))
     start = STARTS[int(rng.integers(len(STARTS)))]
-    return MSeq(gen_seq(rng, n), start, gen_feats(rng, start, start + n - 1, **kw))
+    lo, hi = start, start + n - 1
+    if overhang and rng.random() < 0.3:
+        # features of the annotation may reach beyond the stored sequence (before its start: non-positive positions
+        # included; behind its end), e.g. after the sequence of a larger record was cut
+        lo, hi = start - int(rng.integers(1, 9)), hi + int(rng.integers(0, 6))
+    return MSeq(gen_seq(rng, n), start, gen_feats(rng, lo, hi, **kw))
 
 
 # =========================================================================== direct oracles
@@ -460,7 +465,10 @@ def check_aseq_slice(ctx, aseq, m, a, b):
     res = call_slice(ctx, aseq, a, b, what, detail)
     a_eff = m.start if a is None else a
     b_eff = m.end if b is None else b
-    exp_cov, exp_norm = m_slice(m.feats, a_eff, b_eff)
+    # an omitted start is an open bound for the annotation: nothing is removed on the left, also not from locations that
+    # begin before the stored sequence (non-positive positions); an omitted stop stands for the end of the stored
+    # sequence (what lies behind it is cut and marked as cut) - in both cases "cut on a side iff bases were removed there"
+    exp_cov, exp_norm = m_slice(m.feats, a, b_eff)
     if not isinstance(res, AnnotatedSequence):
         ctx.fail("window", "%s returned %s" % (what, type(res).__name__), **detail)
     judge_annotation(ctx, res.annotation, exp_cov, exp_norm, what, detail)
@@ -726,7 +734,7 @@ def case_annot_slices(rng, ctx):
 
 
 def case_aseq_small(rng, ctx):
-    m = gen_mseq(rng, 1, 12)
+    m = gen_mseq(rng, 1, 12, overhang=True)
     aseq = mk_aseq(m, rng)
     log_obj(ctx, m)
     forms = slice_forms(ctx, m.start, m.end, on_aseq=True)
@@ -786,7 +794,7 @@ def case_aseq_small(rng, ctx):
 
 
 def case_aseq_long(rng, ctx):
-    m = gen_mseq(rng, 13, 60)
+    m = gen_mseq(rng, 13, 60, overhang=True)
     aseq = mk_aseq(m, rng)
     log_obj(ctx, m)
     forms = slice_forms(ctx, m.start, m.end, on_aseq=True, rng=rng, nsample=25)
